@@ -286,15 +286,23 @@ PROPS['C16'] = dict(
 
 PROPS['C20'] = dict(
     level='model_checking',
-    design=[D('MCPubSubDecorators', 'MCPubSubDecorators.cfg')],
-    traces={'PubSubDecoratorsTrace': dict(module='PubSubDecoratorsTrace', cfg='PubSubDecoratorsTrace.cfg')},
+    design=[D('MCPubSubDecorators', 'MCPubSubDecorators.cfg'),
+            D('SubDecorator', 'MCSubDecorator_fixed.cfg', workers=8),
+            D('SubDecorator', 'MCSubDecorator_legacy_plainsend.cfg', expect='fail', violates='CloseReturns'),
+            D('SubDecorator', 'MCSubDecorator_legacy_nowglock.cfg', expect='fail', violates='NoAddDuringWait'),
+            D('SubDecorator', 'MCSubDecorator_mut_closingfirst.cfg', expect='fail', violates='DropJustified'),
+            D('SubDecorator', 'MCSubDecorator_mut_sharedctx.cfg', expect='fail', violates='DropJustified')],
+    traces={'PubSubDecoratorsTrace': dict(module='PubSubDecoratorsTrace', cfg='PubSubDecoratorsTrace.cfg'),
+            'SubDecoratorTrace': dict(module='SubDecoratorTrace', cfg='SubDecoratorTrace.cfg', timeout=1800)},
+    selftests=[('SubDecoratorTrace', 'drop', dict(e='hook', point='decorator.close.signalled'))],
     rule='runs = (1) delay.Publisher: every batch of 1..3 messages over delay sources {metadata present, context delay (For / Until future / Until past / zero), none} x generator '
          '{present, failing, absent} x AllowNoDelay x inner publisher {accept, error}; (2) every publisher-decorator stack of depth 1..3 over {transform, metrics, delay} x batch '
          'size 1..3 x inner outcome, and every subscriber-decorator stack of depth 1..3 over {transform, metrics} with Ack/Nack propagated to the inner message; (3) Prometheus '
          'router metrics applied once and twice x handler outcome sequences over {success, error, panic, publish failure}; counters gathered from a private registry vs. the '
-         "harness' own event counts; non-trivial = every run",
+         "harness' own event counts; (4) randomly scripted concurrent runs of one message-transform subscriber decorator (1-2 subscriptions x 0-3 messages x consumers that stop after "
+         "0-3 messages or read on x cancels x one Close x a Subscribe after Close began), recorded as internal hook traces; non-trivial = every run",
     exhaustive=True,
-    min_stats={'delay_cases': 400, 'stack_cases': 200, 'metrics_cases': 20},
+    min_stats={'delay_cases': 400, 'stack_cases': 200, 'metrics_cases': 20, 'decorator_conformance_runs': 100},
     assumptions=['delayed_until has one-second resolution: the stamping instant is accepted within [-6 s, +2 s] of the call',
                  'asynchronous subscriber counters are polled until complete (at most 3 s)'],
 )
